@@ -59,12 +59,13 @@ package ios
 //vc:  ensures[C09] @unmanagedErrorNotNil err == nil && isnil(old(s.State.errUnmanaged)) && !isnil(s.State.errUnmanaged) ==> len(s.State.errUnmanaged) > 0 && s.State.errUnmanaged[0] != nil
 
 // ---- C09 ----
-//vc:spec func validOut(cmd string, out string) bool
+// A reply is acceptable if each of its lines is empty, an INFO: line or a
+// WARNING: line (which is logged); anything else rejects the command.
+//vc:spec func lineOK(l string) bool = l == "" || strings.HasPrefix(l, "INFO:") || strings.HasPrefix(l, "WARNING:")
+//vc:spec func validOut(cmd string, out string) bool = forall i int :: 0 <= i && i < splitCount(out, "\n") ==> lineOK(splitPart(out, "\n", i))
 //vc:func isValidOutput
-//vc:  trusted
-//vc:  nopanic
-//vc:  modifies nothing
-//vc:  ensures result == validOut(cmd, out)
+//vc:  invariant[C09] 1 "for _, line := range strings.Split(out" @linesSoFarAcceptable forall i int :: 0 <= i && i <= rangeindex ==> lineOK(splitPart(out, "\n", i))
+//vc:  ensures[C09] @trueOnlyIfEveryLineAcceptable result ==> validOut(cmd, out)
 
 // one reply is read and checked: banner removed, echo stripped, remainder empty or acceptable
 //vc:func (*State).cmd$1
